@@ -118,20 +118,39 @@ class MultipartDecoder:
             % (LINE_BREAK, re.escape(boundary), LINE_BREAK, LINE_BREAK),
             re.MULTILINE,
         )
+        # A line break and the boundary marker followed, up to the end of
+        # the buffer, by a single dash or only by trailing whitespace may or
+        # may not become a boundary once more data arrives.
+        self._undecided_boundary_re = re.compile(
+            rb"%s--%s(?:-|[^\S\n\r]*)\Z" % (LINE_BREAK, re.escape(boundary)),
+            re.MULTILINE,
+        )
         self._search_position = 0
         self._parts_decoded = 0
 
-    def last_newline(self, data: bytes) -> int:
-        try:
-            last_nl = data.rindex(b"\n")
-        except ValueError:
-            last_nl = len(data)
-        try:
-            last_cr = data.rindex(b"\r")
-        except ValueError:
-            last_cr = len(data)
+    def _partial_boundary_index(self, data: bytes) -> int:
+        """Return the index of the first line break in ``data`` that could
+        still turn out to start a boundary when more data arrives, or
+        ``len(data)`` if there is none.
+        """
+        boundary = b"--" + self.boundary
+        index = len(data)
+        marker_index = data.rfind(boundary)
 
-        return min(last_nl, last_cr)
+        if marker_index != -1:
+            match = self._undecided_boundary_re.search(data, max(0, marker_index - 2))
+
+            if match is not None:
+                index = match.start()
+
+        # A boundary that is cut off before the end of its marker starts with
+        # a line break in the tail of the data.
+        match = LINE_BREAK_RE.search(data, max(0, len(data) - len(boundary) - 1))
+
+        if match is not None and match.start() < index:
+            index = match.start()
+
+        return index
 
     def receive_data(self, data: bytes | None) -> None:
         if data is None:
@@ -211,10 +230,13 @@ class MultipartDecoder:
 
         elif self.state == State.DATA_START:
             data, del_index, more_data = self._parse_data(self.buffer, start=True)
-            del self.buffer[:del_index]
-            event = Data(data=data, more_data=more_data)
-            if more_data:
-                self.state = State.DATA
+            # Nothing is consumed while it is undecided whether the line break
+            # that starts the body also starts the next boundary.
+            if del_index > 0:
+                del self.buffer[:del_index]
+                event = Data(data=data, more_data=more_data)
+                if more_data:
+                    self.state = State.DATA
 
         elif self.state == State.DATA:
             data, del_index, more_data = self._parse_data(self.buffer, start=False)
@@ -254,32 +276,30 @@ class MultipartDecoder:
             data_start = 0
 
         boundary = b"--" + self.boundary
+        match = None
 
-        if self.buffer.find(boundary) == -1:
-            # No complete boundary in the buffer, but there may be
-            # a partial boundary at the end. As the boundary
-            # starts with either a nl or cr find the earliest and
-            # return up to that as data.
-            data_end = del_index = self.last_newline(data[data_start:]) + data_start
-            # If amount of data after last newline is far from
-            # possible length of partial boundary, we should
-            # assume that there is no partial boundary in the buffer
-            # and return all pending data.
-            if (len(data) - data_end) > len(b"\n" + boundary):
-                data_end = del_index = len(data)
-            more_data = True
-        else:
+        if self.buffer.find(boundary) != -1:
             match = self.boundary_re.search(data)
-            if match is not None:
-                if match.group(1).startswith(b"--"):
-                    self.state = State.EPILOGUE
-                else:
-                    self.state = State.PART
-                data_end = match.start()
-                del_index = match.end()
+
+        if match is not None:
+            if match.group(1).startswith(b"--"):
+                self.state = State.EPILOGUE
             else:
-                data_end = del_index = self.last_newline(data[data_start:]) + data_start
-            more_data = match is None
+                self.state = State.PART
+            data_end = match.start()
+            del_index = match.end()
+        else:
+            # No complete boundary in the buffer, but there may be a
+            # partial boundary at the end. Return the data up to the
+            # first line break that could be the start of one.
+            data_end = del_index = self._partial_boundary_index(data)
+
+            if del_index < data_start:
+                # The line break that starts the body may instead be
+                # the start of the next boundary.
+                data_end = del_index = 0
+
+        more_data = match is None
 
         return bytes(data[data_start:data_end]), del_index, more_data
 
